@@ -238,7 +238,16 @@ pub(crate) fn blend<S: Sample>(
         let original_frame_region = new_grid.regions_and_shifts()[idx]
             .0
             .intersection(full_frame_region);
-        let clipped_original_frame_region = original_frame_region.intersection(output_frame_region);
+        let mut clipped_original_frame_region =
+            original_frame_region.intersection(output_frame_region);
+        // The alpha plane has its own region, which may differ from the region of the plane being
+        // blended (filters pad color channels, extra channels are upsampled separately).
+        let new_alpha_region =
+            alpha_idx.map(|alpha_idx| new_grid.regions_and_shifts()[alpha_idx + color_channels].0);
+        if let Some(new_alpha_region) = new_alpha_region {
+            clipped_original_frame_region =
+                clipped_original_frame_region.intersection(new_alpha_region);
+        }
 
         let mut base_alpha_grid;
         let mut base_alpha = None;
@@ -354,13 +363,28 @@ pub(crate) fn blend<S: Sample>(
         }
         new_grid.buffer_mut()[idx].convert_to_float_modular(bit_depth)?;
 
-        let mut blend_params = if clone_empty {
-            let new_alpha = alpha_idx.map(|idx| {
-                new_grid.buffer()[idx + color_channels]
+        // Part of the alpha plane that covers the area being blended.
+        let new_alpha = alpha_idx
+            .zip(new_alpha_region)
+            .map(|(alpha_idx, alpha_region)| {
+                let alpha_grid = new_grid.buffer()[alpha_idx + color_channels]
                     .as_float()
                     .unwrap()
-                    .as_subgrid()
+                    .as_subgrid();
+                if clipped_original_frame_region.is_empty() {
+                    return alpha_grid;
+                }
+
+                let left = clipped_original_frame_region
+                    .left
+                    .abs_diff(alpha_region.left) as usize;
+                let top = clipped_original_frame_region.top.abs_diff(alpha_region.top) as usize;
+                let width = clipped_original_frame_region.width as usize;
+                let height = clipped_original_frame_region.height as usize;
+                alpha_grid.subgrid(left..left + width, top..top + height)
             });
+
+        let mut blend_params = if clone_empty {
             let premultiplied =
                 alpha_idx.and_then(|idx| image_header.metadata.ec_info[idx].alpha_associated());
             BlendParams::from_blending_info(
@@ -372,12 +396,6 @@ pub(crate) fn blend<S: Sample>(
                 premultiplied,
             )
         } else {
-            let new_alpha = alpha_idx.map(|idx| {
-                new_grid.buffer()[idx + color_channels]
-                    .as_float()
-                    .unwrap()
-                    .as_subgrid()
-            });
             let premultiplied =
                 alpha_idx.and_then(|idx| image_header.metadata.ec_info[idx].alpha_associated());
             BlendParams::from_blending_info(
@@ -397,14 +415,14 @@ pub(crate) fn blend<S: Sample>(
                 .top
                 .abs_diff(output_frame_region.top) as usize,
         );
-        blend_params.new_topleft = (
-            clipped_original_frame_region
-                .left
-                .abs_diff(original_frame_region.left) as usize,
-            clipped_original_frame_region
-                .top
-                .abs_diff(original_frame_region.top) as usize,
-        );
+        let new_left = clipped_original_frame_region
+            .left
+            .abs_diff(original_frame_region.left) as usize;
+        let new_top = clipped_original_frame_region
+            .top
+            .abs_diff(original_frame_region.top) as usize;
+        // The new frame and its alpha are passed as windows of the area being blended.
+        blend_params.new_topleft = (0, 0);
         blend_params.width = clipped_original_frame_region.width as usize;
         blend_params.height = clipped_original_frame_region.height as usize;
 
@@ -412,7 +430,11 @@ pub(crate) fn blend<S: Sample>(
         // of the new frame may be empty and there's nothing to blend.
         if !clipped_original_frame_region.is_empty() {
             let new_grid = new_grid.buffer()[idx].as_float().unwrap();
-            blend_single(target_subgrid, new_grid.as_subgrid(), &blend_params);
+            let new_grid = new_grid.as_subgrid().subgrid(
+                new_left..new_left + blend_params.width,
+                new_top..new_top + blend_params.height,
+            );
+            blend_single(target_subgrid, new_grid, &blend_params);
         }
         output_grid.append_channel(target_grid, target_region);
     }
